@@ -83,7 +83,8 @@ class Script:
 
 def wkey(watch):
     """Our JSON-able name of a watch key: [path, recursive, filter id]."""
-    return (watch.path, bool(watch.is_recursive), 0 if watch.event_filter is None else 1)
+    f = watch.event_filter
+    return (watch.path, bool(watch.is_recursive), 0 if f is None else (2 if len(f) == 0 else 1))
 
 
 def make_emitter_class(script: Script):
@@ -153,7 +154,7 @@ class Impl:
         self.nmark = 0
 
     def filt(self, f):
-        return None if not f else [self.FileModifiedEvent]
+        return None if not f else ([] if f == 2 else [self.FileModifiedEvent])      # 2 = the empty filter (a key of its own)
 
     def watch(self, w):
         return self.ObservedWatch(w[0], recursive=bool(w[1]), event_filter=self.filt(w[2]))
@@ -210,7 +211,9 @@ class Impl:
             self.nmark += 1
             m = f"marker-{self.nmark}"
             marks[m] = wkey(e.watch)
-            e.queue_event(self.FileModifiedEvent(m))
+            # straight into the observer's queue: the probe is about the registry (which handlers an event of this
+            # watch reaches), not about the emitter's class filter (an empty filter lets nothing through - C11)
+            e._event_queue.put((self.FileModifiedEvent(m), e.watch))
         q = obs.event_queue
         if obs.is_alive():
             with q.all_tasks_done:
@@ -574,7 +577,7 @@ def check_spec_runner(ctx, res: Result, seqs):
     """Extracted spec machine against the extracted impl machine (already proved equal: C13_refines) - a smoke test of
     the runner glue, on the orders the real run used."""
     cases_i, cases_s = [], []
-    univ = [wire_w(w) for w in all_watches((0, 1))]
+    univ = [wire_w(w) for w in all_watches((0, 1, 2))]
     for seq in seqs:
         obs = run_impl(seq)
         cs = [[wire_call(c, o["ord"]), wire_fault(f)] for (c, f), o in zip(seq, obs)]
@@ -664,7 +667,7 @@ def run(ctx) -> Result:
     n_random = 1500 if not ctx.thorough else 6000
     rseqs = []
     for i in range(n_random):
-        filters = (0, 1) if i % 3 == 0 else (0,)
+        filters = ((0, 1) if i % 2 else (0, 2, 1)) if i % 3 == 0 else (0,)
         ws = all_watches(filters)
         if i % 4 == 1:
             ws = ws[:2]          # few watches: many equal-watch collisions
